@@ -751,6 +751,11 @@ def pat_idles(rnd, sid):
         progs["i%d" % i] = [{"ops": ops}]
         return i
     cbops = []
+    if r.random() < 0.08:
+        # more idles pending than any batch limit the loop has for other things (1024): all of them run in the first
+        # dispatch that returns Ok
+        steps += [{"op": "insert_idle_many", "m": 5000, "d": r.choice([1024, 1025, 1500])}, {"op": "dispatch"}, {"op": "dispatch"}]
+        return {"id": sid, "tick_us": 2000, "sources": srcs, "progs": {"s1": [{"ops": []}]}, "steps": steps}
     for rnd_i in range(r.choice([2, 3, 4])):
         burst = r.choice([0, 1, 2, 4, 5, 5, 6, 8, 9, 9, 17])
         for _ in range(burst):
